@@ -662,7 +662,7 @@ func (e *Enc) allocRef(st *State) string {
 // ---------------------------------------------------------------------------
 
 func sortedKeys(m map[string]bool) []string {
-	var xs []string
+	xs := []string{}
 	for k := range m {
 		xs = append(xs, k)
 	}
